@@ -89,6 +89,8 @@ pub struct Leaf {
     pub debug: String,
     /// Address of the node (to test that getters hand out the very nodes stored in the content).
     pub addr: usize,
+    /// Tuple-slot path through which the getter handed it out ("1.0"; "" if no tuple is involved).
+    pub path: String,
 }
 
 #[derive(Clone, Debug, PartialEq)]
